@@ -41,6 +41,8 @@ GRID = [
     dict(k=2, runs=None, gc=None, motifs=["A"]),
     dict(k=6, runs=3, gc=[0.3, 0.7], motifs=["AAC", "GATC"]),
     dict(k=1, runs=1, gc=[0.0, 1.0], motifs=["T"]),
+    dict(k=5, runs=None, gc=None, motifs=["GATC", "CC"]),          # longer motif listed FIRST (strings shorter than it must still be screened for the second)
+    dict(k=4, runs=2, gc=None, motifs=["ACAT", "G", "TA"]),
 ]
 
 
